@@ -253,6 +253,19 @@ def check_generate(p, case, timeout_ms):
 
 
 def generate(case):
+    """The wrapper is called twice and the first result is edited in place by its owner: the second result must
+    be a fresh circuit (a generated circuit is the caller's to change)."""
+    first = _generate_once(case)
+    if first.outputs:
+        first.set_outputs(list(first.outputs)[:1])
+    if first.gates:
+        lab = list(first.gates)[-1]
+        if not first.get_gate_users(lab) and lab not in first.outputs and lab not in first.inputs:
+            first.remove_gate(lab)
+    return _generate_once(case)
+
+
+def _generate_once(case):
     be = case.get("big_endian", False)
     if case["kind"] == "mul":
         return A.generate_mul(case["widths"][0], case["widths"][1], type=M.MulMode(case["mode"]), big_endian=be)
